@@ -276,6 +276,9 @@ impl RetainStore for FlakyStore {
 
 const D_PROGRAM: &str = "CONFIGURATION C\nVAR_GLOBAL RETAIN gkeep : DINT; END_VAR\nVAR_GLOBAL hold : BOOL; END_VAR\nPROGRAM P : Main;\nEND_CONFIGURATION\nPROGRAM Main\nVAR RETAIN a : DINT; b : INT; END_VAR\nVAR_EXTERNAL gkeep : DINT; hold : BOOL; END_VAR\nIF NOT hold THEN\n  a := a + DINT#1;\n  b := b + INT#2;\n  gkeep := gkeep + DINT#3;\nEND_IF;\nEND_PROGRAM\n";
 
+/// the same program without any retained variable: its snapshot is empty
+const D_PROGRAM_EMPTY: &str = "CONFIGURATION C\nVAR_GLOBAL gkeep : DINT; hold : BOOL; END_VAR\nPROGRAM P : Main;\nEND_CONFIGURATION\nPROGRAM Main\nVAR a : DINT; b : INT; END_VAR\nVAR_EXTERNAL gkeep : DINT; hold : BOOL; END_VAR\nIF NOT hold THEN\n  a := a + DINT#1;\n  b := b + INT#2;\n  gkeep := gkeep + DINT#3;\nEND_IF;\nEND_PROGRAM\n";
+
 fn part_d(sh: &mut Shard, rng: &mut Rng, dir: &Path, n: usize) {
     use std::sync::atomic::{AtomicU64, Ordering};
     use std::sync::Arc;
@@ -288,16 +291,26 @@ fn part_d(sh: &mut Shard, rng: &mut Rng, dir: &Path, n: usize) {
         let nops = 4 + r.usize(30);
         // ops: 0 = cycle changing the values, 1 = cycle holding them, 2 = save, 3 = arm k store failures
         let ops: Vec<(u8, u64)> = (0..nops).map(|_| match r.below(8) { 0 | 1 => (0, 0), 2 | 3 => (1, 0), 4 | 5 | 6 => (2, 0), _ => (3, 1 + r.below(2)) }).collect();
-        let case = json!({"part": "D", "seed": seed.to_string(), "ops": ops});
+        // the file may already hold the snapshot of an earlier program version, and this version may retain nothing
+        let old_on_disk = r.chance(1, 2);
+        let retains_nothing = r.chance(1, 3);
+        let case = json!({"part": "D", "seed": seed.to_string(), "ops": ops, "old_snapshot_on_disk": old_on_disk, "program_retains_nothing": retains_nothing});
         if !sh.begin("D|acknowledged-save", &case) {
             continue;
         }
         let path = dir.join(format!("d{i}.bin"));
         let _ = std::fs::remove_file(&path);
+        if old_on_disk {
+            let mut old = RetainSnapshot::default();
+            old.insert("Main.a", Value::DInt(999));
+            old.insert("Main.stale", Value::Int(7));
+            old.insert("gkeep", Value::DInt(-5));
+            let _ = FileRetainStore::new(path.clone()).store(&old);
+        }
         let p2 = path.clone();
         let ops2 = ops.clone();
         let res = catch(move || -> Result<(u64, u64, u64), (String, String)> {
-            let mut h = trust_runtime::harness::TestHarness::from_source(D_PROGRAM).map_err(|e| ("harness".to_string(), e.to_string()))?;
+            let mut h = trust_runtime::harness::TestHarness::from_source(if retains_nothing { D_PROGRAM_EMPTY } else { D_PROGRAM }).map_err(|e| ("harness".to_string(), e.to_string()))?;
             let fail_next = Arc::new(AtomicU64::new(0));
             let calls = Arc::new(AtomicU64::new(0));
             h.runtime_mut().set_retain_store(Some(Box::new(FlakyStore { inner: FileRetainStore::new(p2.clone()), fail_next: fail_next.clone(), calls: calls.clone() })), None);
@@ -327,6 +340,15 @@ fn part_d(sh: &mut Shard, rng: &mut Rng, dir: &Path, n: usize) {
                                     skipped_writes += 1; // change detection: legitimate only if the file already holds these values
                                 }
                                 let on_disk = FileRetainStore::new(p2.clone()).load().map_err(|e| ("D|acknowledged-save-not-loadable".to_string(), format!("op {k}: save returned Ok, load fails: {e}")))?;
+                                if retains_nothing {
+                                    if !on_disk.values().is_empty() {
+                                        return Err((
+                                            "D|acknowledged-save-not-on-disk".into(),
+                                            format!("op {k}: save_retain_store() returned Ok for a program that retains nothing, but the file still holds {} value(s) of an earlier snapshot (store calls during this save: {})", on_disk.values().len(), calls.load(Ordering::SeqCst) - before),
+                                        ));
+                                    }
+                                    continue;
+                                }
                                 let get = |name: &str| on_disk.values().iter().find(|(key, _)| key.eq_ignore_ascii_case(name) || key.to_ascii_lowercase().ends_with(&format!(".{}", name.to_ascii_lowercase()))).map(|(_, v)| canon(v));
                                 let want = [("a", canon(&Value::DInt(n_changed as i32))), ("b", canon(&Value::Int((2 * n_changed) as i16))), ("gkeep", canon(&Value::DInt((3 * n_changed) as i32)))];
                                 for (name, w) in want {
